@@ -23,6 +23,18 @@ CHECKS = {
  "C05": ("exploration", "§10 C05",
    "Every document of the seeded histories is sent through CBOR-bytes, UR-string and CBOR-value transport and decoded; identity (library and model), positional case/digest equality and byte-equal re-encoding are checked.",
    "deterministic simulation, encode->transport->decode round-trip oracle against model"),
+ "C06": ("fault_enumeration", "§10 C06",
+   "Receivers decode what a faulty network/storage delivers: byte-level corruption (flip, truncate, insert, delete, overwrite; single and double), 20 kinds of structure-aware CBOR mutations made by the simulator's own reader/writer (single, double, followed by a bit flip), random bytes; a sub-family enumerates EVERY single-bit flip and every structural mutation kind x site of each small encoding. Oracles: never panics; accepted => re-encodes to the input (modulo the #6.24 alias); mutations ill-formed by construction must be rejected.",
+   "deterministic simulation with injected corruption faults; exhaustive single-fault enumeration per encoding"),
+ "C08": ("fault_enumeration", "§10 C08",
+   "Owner encrypts (subject / wrapped whole, every subject case), element travels through the wire; faults: tampering of each field (ciphertext, nonce, auth tag, declared digest), bit flips anywhere in the encoding, wrong key, Byzantine key holder mis-declaring the digest (bare and node subject); a sub-family enumerates every single-bit flip of every field of small encrypted elements. Fault-free configuration checks identical round trip, digest kept, second encryption refused.",
+   "deterministic simulation with field-tamper / bit-flip / wrong-key / mis-declare faults; per-element single-bit enumeration"),
+ "C13": ("fault_enumeration", "§10 C13",
+   "compress / compress_subject over every subject case (compressible, raw-stored and empty payloads, compressed element reused as subject of further assertions), stored, reloaded, uncompressed; faults: tampering of checksum/size/data/declared digest, bit flips (every bit of small encodings in the enumeration sub-family), misdirected writes and Byzantine mis-declared content. Oracles: identical after uncompress, same digest at every step, idempotent; under faults Err or the same visible content, never other data.",
+   "deterministic simulation with field-tamper / bit-flip / misdirected-write / mis-declare faults; per-encoding single-bit enumeration"),
+ "C16": ("exploration", "§10 C16",
+   "About 130 call shapes of the query / transform / obscure / verify / parse / format families applied under catch_unwind to documents from seeded histories, decorated assertions (salted, signed with metadata, recipient- and share-bearing, typed, attachments, requests/responses), every obscuration pattern and adversarially decoded documents (survivors of the wire fault engine). A panic is the crash. Documents holding an out-of-range date leaf (known finding D7, which would poison the process-wide format context) are probed in a sacrificial child process.",
+   "deterministic simulation, panic-as-crash oracle over seeded histories and fault-injected decoded inputs"),
  "C07": ("exploration", "§10 C07",
    "Seeded histories with duplicate adds, add/remove inverses, wrap/unwrap, remove-last; model-predicted exact bytes for every clear/elided document; every input document re-encoded after each step to prove it was not altered.",
    "deterministic simulation of seeded assembly orders vs. model-predicted bytes"),
